@@ -19,7 +19,13 @@ RULE = ('per stage (blocked, discard, downsample, decimate, rms, derivative, iir
         'thorough: N=9 resp. 12) with a parameter that does not divide N, then seeded random chunkings of streams up to 400 samples with '
         'random parameters (q 1..5, block sizes 1..50, discard counts 0..N+2, rms block 1..50, filter orders 1..3, baseline 2..N+2), '
         '1-D and 2-channel, plain ndarray and PipelineData; annotated streams start at 0, at positive and at NEGATIVE s0 (pre-stimulus), half of them chosen so that a counter of the stage (output-sample counter, s0 of the held block, discard/block counter) is exactly 0, +-1 or its initial value at a chunk boundary of the chunking, plus dedicated chunkings cut exactly at / next to that point; fs in {1000, 44100, 195312.5}; '
-        'event_rate: all compositions of spans of 9 (thorough 11) samples and random spans up to 300 with random events, window 1..40, step 1..40. '
+        'event_rate: all compositions of spans of 9 (thorough 11) samples and random spans up to 300 with random events, window 1..40, step 1..40; '
+        'CAUSAL Events streams (events at or after the end of the block that carries them, never before its start): one event multiset on one timeline fed under 3 '
+        'different chunkings / assignments of the events to blocks (edges-like lag 0..m, arbitrarily early blocks, block ends exactly at event positions, zero-span blocks, '
+        'events beyond the end of the stream), each judged against the model and the window counts of the whole stream; COMPOSITION boolean stream meeting the C13 '
+        'run-length precondition -> real pipeline.edges (debounce 1..6, all detect modes, both initial states, plain and PipelineData input) -> real pipeline.event_rate under '
+        'chunkings cut exactly min_samples before / after an edge and at every offset in between, one sample per chunk, random: the Events blocks edges emitted go to the '
+        'model, the rates must equal the single-chunk run and the counts of the TRUE edge positions per window. '
         'Variant cases (per stage ~90 quick / 1500 thorough; event_rate 120 / 2000): float64/float32/int64/int32/int16 data, read-only chunks, '
         'ZERO-LENGTH chunks (every stage; in front, in the middle, in a row, at the end), 1/2/3 channels, string / falsy / mixed-type / tuple / default labels, '
         'scalar labels on 1-D, {} / nested / falsy-valued metadata, int / NumPy scalars for q, block size, discard count, fs, s0, off-grid seconds '
@@ -42,7 +48,8 @@ ASSUMPTIONS = ['zero-length chunks are sent to every stage; the C12_*_values / _
                '(abstract mapAccum in the proofs; exercised bit-exactly here); lfilter is never called on an empty array by the repaired code',
                'transform is claimed for elementwise functions, mc_reference for square matrices; derivative for annotated input only '
                '(it reads .fs; plain input raises AttributeError in code and model)',
-               'event_rate: every event of an Events chunk lies inside the span of that chunk; block_size, block_step >= 1 integers',
+               'event_rate: every event of an Events chunk lies at or after the START of the span of that chunk (it may lie at or beyond its end, as in the blocks '
+               'pipeline.edges emits); spans tile the timeline; block_size, block_step >= 1 integers (or block_step = odd/2)',
                'the first output s0 of downsample/decimate is the input s0 itself (input-rate units); only contiguity is claimed for it']
 
 FSS = [1000.0, 44100.0, 195312.5]
@@ -59,6 +66,7 @@ KNOWN_KEYS = {
     'rms': 'rms:1d-annotated-channel-list-per-block',
     'auto_th': 'auto_th:fs-auto-TypeError',
     'event_rate': 'event_rate:first-chunk-not-processed',
+    'event_rate_ahead': 'event_rate:drops-events-ahead-of-span',
 }
 
 
@@ -77,6 +85,11 @@ KNOWN_WITNESSES = {
                             'ann': True, 's0': 0, 'fs': 1000.0, 'sizes': [3, 3, 4], 'seed': 1},
     KNOWN_KEYS['event_rate']: {'stage': 'event_rate', 'p': {'bsz': 50, 'stp': 25}, 'lo': 0, 'fs': 1000.0, 'sizes': [200],
                                'events': [10, 30, 80, 190]},
+    # repaired by fix-C12-er: edges(3, detect='rising') -> event_rate(10, 10) on ([0]*5+[1]*5)*6 in chunks of 8, 10, 42:
+    # the rising edge at 15 is reported with sample == end of its block and was dropped from the left-over
+    KNOWN_KEYS['event_rate_ahead']: {'stage': 'edges_rate', 'p': {'bsz': 10, 'stp': 10}, 'm': 3, 'init': 0, 'detect': 'rising',
+                                     'bits': ([0] * 5 + [1] * 5) * 6, 'sizes': [8, 10, 42], 'form': 'plain', 'first': 0,
+                                     'fs': 1000.0},
 }
 
 
@@ -529,13 +542,33 @@ def _er_args(case):
     return bsz, stp, fs
 
 
+def _er_blocks(case):
+    """the event positions each Events chunk carries: by default those inside its span; 'blocks' assigns them
+    explicitly (causal streams: an event may sit in a chunk whose span ends at or before it)"""
+    if 'blocks' in case:
+        return [list(b) for b in case['blocks']]
+    out, lo = [], case['lo']
+    for n in case['sizes']:
+        out.append([e for e in case['events'] if lo <= e < lo + n])
+        lo += n
+    return out
+
+
+def _er_one(case):
+    """the same stream delivered as a single chunk"""
+    one = dict(case, sizes=[sum(case['sizes'])])
+    if 'blocks' in case:
+        one['blocks'] = [sorted(case['events'])]
+    return one
+
+
 def _events(case):
     from psiaudio.pipeline import Events
     lo = case['lo']
     fs = _er_args(case)[2]
     out = []
-    for n in case['sizes']:
-        ev = [('rising', e) for e in case['events'] if lo <= e < lo + n]
+    for n, evs in zip(case['sizes'], _er_blocks(case)):
+        ev = [(('rising', 'falling')[i % 2] if 'blocks' in case else 'rising', e) for i, e in enumerate(evs)]
         if _v(case, 'evk') == 'np':
             ev = [(k, np.int64(e)) for k, e in ev]
         out.append(Events(ev, lo, lo + n, fs))
@@ -578,8 +611,63 @@ def _impl_events(case):
             cr.send(c)
         return outs
     outs = drive(_events(case))
-    one = drive(_events(dict(case, sizes=[sum(case['sizes'])])))
+    one = drive(_events(_er_one(case)))
     res = {'outs': [_enc_rate(case, o) for o in outs], 'one': [_enc_rate(case, o) for o in one]}
+    if outs:
+        try:
+            P.concat(outs, axis=-1)
+            res['concat'] = 'ok'
+        except ValueError as e:
+            res['concat'] = 'ValueError: ' + str(e)[:200]
+    return res
+
+
+# ------------------------------------------------------------------ edges -> event_rate (composition)
+def _edges_lo(case):
+    """edges starts its Events spans min_samples before the first sample (plain input: sample 0)"""
+    return (case['first'] if case['form'] == 'pd' else 0) - case['m']
+
+
+def _true_edges(case):
+    """positions of the transitions of the boolean stream itself (first high sample / first low sample of every run,
+    the initial state being a settled run), restricted to the detect mode"""
+    first = case['first'] if case['form'] == 'pd' else 0
+    out, prev = [], bool(case['init'])
+    for i, b in enumerate(case['bits']):
+        b = bool(b)
+        if b != prev and case['detect'] in ('both', 'rising' if b else 'falling'):
+            out.append(first + i)
+        prev = b
+    return out
+
+
+def _impl_edges_rate(case):
+    from psiaudio import pipeline as P
+
+    def drive(sizes):
+        outs, blocks = [], []
+        bsz, stp, _ = _er_args(case)
+        er = P.event_rate(bsz, stp, outs.append)
+
+        def tap(ev):
+            blocks.append([[int(x) for x in ev.events['sample']], int(ev.start), int(ev.end)])
+            er.send(ev)
+        kw = {'initial_state': case['init'], 'detect': case['detect']}
+        if case['form'] != 'pd':
+            kw['fs'] = case['fs']
+        cr = P.edges(case['m'], tap, **kw)
+        x = np.array(case['bits'], dtype=bool)
+        lo = 0
+        for n in sizes:
+            a = x[lo:lo + n]
+            if case['form'] == 'pd':
+                a = P.PipelineData(a[np.newaxis, :], fs=case['fs'], s0=case['first'] + lo, channel=['ch'], metadata={'tag': 1})
+            cr.send(a)
+            lo += n
+        return outs, blocks
+    outs, blocks = drive(case['sizes'])
+    one, _ = drive([len(case['bits'])])
+    res = {'outs': [_enc_rate(case, o) for o in outs], 'one': [_enc_rate(case, o) for o in one], 'blocks': blocks}
     if outs:
         try:
             P.concat(outs, axis=-1)
@@ -609,6 +697,8 @@ def impl(case):
     try:
         if case['stage'] == 'event_rate':
             return _impl_events(case)
+        if case['stage'] == 'edges_rate':
+            return _impl_edges_rate(case)
         return _impl_array(case)
     finally:
         if armed:
@@ -650,19 +740,27 @@ def term(case, res):
     # C12_MODEL_UNREPAIRED=1 compares with the `rep = false` variants of the model instead (used once, by hand, to
     # validate the `_unrepaired` model functions against the tree before the fix-C12 commits)
     rep = 'false' if os.environ.get('C12_MODEL_UNREPAIRED') else 'true'
+    # C12_MODEL_ER_UNREPAIRED=1: event_rate is compared with [er_step_unrepaired] (the code before the repair
+    # fix-C12-er; used by hand to tie that variant of the model to the old tree)
+    un = '_unrepaired' if (os.environ.get('C12_MODEL_UNREPAIRED') or os.environ.get('C12_MODEL_ER_UNREPAIRED')) else ''
+    if st == 'edges_rate':
+        # the Events blocks that the real edges handed to event_rate (events may lie at or after a block's end)
+        cs = [f'Ev {zlist(ev)} {zlit(a)} {zlit(b)}' for ev, a, b in res['blocks']]
+        got = listlit([f'Rb {zlist(o["counts"])} {zlit(o["s0x2"])} {zlit(o["fsd"])}' for o in res['outs']])
+        return f'check_event_rate{un} {rep} {zlit(p["bsz"])} {zlit(p["stp"])} {listlit(cs)} (Some {got})'
     if st == 'event_rate':
         den = p.get('den', 1)          # block_step = stp / den; the model runs on positions multiplied by den
         cs, lo = [], case['lo']
-        for n in case['sizes']:
-            cs.append(f'Ev {zlist([den * e for e in case["events"] if lo <= e < lo + n])} {zlit(den * lo)} {zlit(den * (lo + n))}')
+        for n, evs in zip(case['sizes'], _er_blocks(case)):
+            cs.append(f'Ev {zlist([den * e for e in evs])} {zlit(den * lo)} {zlit(den * (lo + n))}')
             lo += n
         if den != 1:
             # fractional block_step: window arithmetic compared on the scaled integers (counts per emitted block);
             # s0 / fs of the blocks are judged by the oracle only
             got = listlit([zlist(o['counts']) for o in res['outs']])
-            return f'check_event_rate_counts {rep} {zlit(den * p["bsz"])} {zlit(p["stp"])} {listlit(cs)} (Some {got})'
+            return f'check_event_rate_counts{un} {rep} {zlit(den * p["bsz"])} {zlit(p["stp"])} {listlit(cs)} (Some {got})'
         got = listlit([f'Rb {zlist(o["counts"])} {zlit(o["s0x2"])} {zlit(o["fsd"])}' for o in res['outs']])
-        return f'check_event_rate {rep} {zlit(p["bsz"])} {zlit(p["stp"])} {listlit(cs)} (Some {got})'
+        return f'check_event_rate{un} {rep} {zlit(p["bsz"])} {zlit(p["stp"])} {listlit(cs)} (Some {got})'
     h, s0, sizes = _hdr(case), zlit(case['s0'] if case['ann'] else 0), zlist(case['sizes'])
     nrows = 1 if 'raised_allowed' in res else (len(res['outs'][0]['rows']) if res['outs'] else 1)
     ts = []
@@ -731,7 +829,7 @@ def oracle(case, res):
     if 'crash' in res:
         return f'{st}{p}: the stage cannot process the stream at all: {res["crash"]}'
     outs, one = res['outs'], res['one']
-    if st == 'event_rate':
+    if st in ('event_rate', 'edges_rate'):
         return _oracle_events(case, res)
     N = sum(case['sizes'])
     if res.get('n_reset', 1) != 1:
@@ -782,15 +880,35 @@ def oracle(case, res):
     return None
 
 
+def _er_timeline(case):
+    """first sample of the Events timeline and ALL events of the stream (whatever block carries them); for the
+    composition: where edges starts its spans and the true transitions of the boolean stream"""
+    if case['stage'] == 'edges_rate':
+        return _edges_lo(case), _true_edges(case)
+    return case['lo'], case['events']
+
+
 def _er_spec(case):
     p = case['p']
-    lo, hi = case['lo'], case['lo'] + sum(case['sizes'])
+    lo, events = _er_timeline(case)
+    hi = lo + sum(case['sizes'])
     out, s, step = [], lo, p['stp'] / p.get('den', 1)
     if p.get('den', 1) == 1:
         step = p['stp']
     while hi - s > p['bsz']:
-        out.append(sum(1 for e in case['events'] if s <= e < s + p['bsz']))
+        out.append(sum(1 for e in events if s <= e < s + p['bsz']))
         s += step
+    return out
+
+
+def _er_ahead(case, res=None):
+    """events delivered by a block whose span ends at or before them"""
+    if case['stage'] == 'edges_rate':
+        return [e for ev, a, b in (res or {}).get('blocks', []) for e in ev if e >= b]
+    out, lo = [], case['lo']
+    for n, evs in zip(case['sizes'], _er_blocks(case)):
+        out += [e for e in evs if e >= lo + n]
+        lo += n
     return out
 
 
@@ -800,8 +918,13 @@ def _oracle_events(case, res):
     got = [c for o in outs for c in o['counts']]
     want = _er_spec(case)
     if got != want:
-        return (f'event_rate{p}: chunking {case["sizes"][:12]} gives window counts {got[:12]} ({len(got)}), '
-                f'the whole span gives {want[:12]} ({len(want)})')
+        k = next((i for i, (a, b) in enumerate(zip(got, want)) if a != b), min(len(got), len(want)))
+        ahead = _er_ahead(case, res)
+        what = ('edges(%d, detect=%r, initial_state=%d) -> ' % (case['m'], case['detect'], case['init'])
+                if case['stage'] == 'edges_rate' else '')
+        return (f'{what}event_rate{p}: chunking {case["sizes"][:12]} gives window counts {got[:12]} ({len(got)}), '
+                f'the whole stream gives {want[:12]} ({len(want)}); first difference at window {k}'
+                + (f'; events delivered at/after the end of their block: {ahead[:8]}' if ahead else ''))
     if got != [c for o in one for c in o['counts']]:
         return f'event_rate{p}: chunking {case["sizes"][:12]} and a single chunk give different output'
     for k, o in enumerate(outs):
@@ -813,7 +936,7 @@ def _oracle_events(case, res):
         return f'event_rate{p}: pipeline.concat of the consecutive outputs fails: {res.get("concat")}'
     # s0_mode is accepted but ignored by the code (always the centre): the first s0 is judged for 'center' only;
     # the property text fixes contiguity and rate, not the origin
-    if outs and _v(case, 'mode') in (None, 'center') and outs[0]['s0x2'] != 2 * case['lo'] + p['bsz']:
+    if outs and _v(case, 'mode') in (None, 'center') and outs[0]['s0x2'] != 2 * _er_timeline(case)[0] + p['bsz']:
         return f'event_rate{p}: first s0 is not the centre of the first window'
     return None
 
@@ -824,6 +947,8 @@ def nontrivial(case, res):
     st = case['stage']
     if st in ('transform', 'mc_reference'):
         return False
+    if st == 'edges_rate' or 'blocks' in case:
+        return bool(_er_ahead(case, res))           # at least one event ahead of the span of its block
     per = _period(case)
     if st == 'event_rate':
         per = 0
@@ -849,6 +974,8 @@ def key(case, res):
         return KNOWN_KEYS[st]
     if st == 'auto_th' and case['p'].get('fsarg') == 'auto':
         return KNOWN_KEYS[st]
+    if st == 'edges_rate' or (st == 'event_rate' and 'blocks' in case and _er_ahead(case)):
+        return KNOWN_KEYS['event_rate_ahead']
     if st == 'event_rate' and len(case['sizes']) == 1:
         return KNOWN_KEYS[st]
     return None
@@ -978,6 +1105,93 @@ def _er_case(rng, sizes, bsz, stp, lo=None):
     events = [lo + i for i in range(N) if rng.random() < dens]
     return {'stage': 'event_rate', 'p': {'bsz': bsz, 'stp': stp}, 'lo': lo, 'fs': 1000.0,
             'sizes': list(sizes), 'events': events}
+
+
+def _cut_at(points, lo, N):
+    """chunk sizes of [lo, lo + N) cut at the given absolute positions"""
+    cuts = sorted({c for c in points if lo < c < lo + N})
+    return [b - a for a, b in zip([lo] + cuts, cuts + [lo + N])]
+
+
+def _er_ahead_group(rng, variants=3):
+    """ONE event multiset on ONE timeline, delivered `variants` times: differently cut into chunks, the events
+    differently assigned to the chunks - always to a chunk that starts at or before the event (causal), often to one
+    that ends at or before it (as pipeline.edges does: lag of up to m samples)"""
+    N = rng.choice([rng.randint(2, 30), rng.randint(10, 120)])
+    bsz = rng.choice([1, 2, 3, 5, 10, rng.randint(1, 30)])
+    stp = rng.choice([1, 2, 3, 5, 10, rng.randint(1, 30)])
+    lo = rng.choice([0, 0, -3, 17, -rng.randint(1, 60)])
+    m = rng.choice([1, 2, 3, 5, rng.randint(1, 12)])
+    dens = rng.choice([0.05, 0.15, 0.4])
+    events = [lo + i for i in range(N + m) if rng.random() < dens]        # some at / beyond the end of the stream
+    if events and rng.random() < 0.2:
+        events.append(rng.choice(events))                                  # two events at one sample (rising + falling kinds)
+    events.sort()
+    for v in range(variants):
+        mode = rng.choice(['lag', 'lag', 'exact', 'early'])
+        if mode == 'exact' and events:
+            # block ends exactly at (or one sample next to) event positions / lagged event positions
+            pts = [e + rng.choice([0, 0, 1, -1, m, -m]) for e in events if rng.random() < 0.5]
+            sizes = _cut_at(pts, lo, N)
+        else:
+            sizes = _rand_sizes(rng, N, 8)
+        if rng.random() < 0.25:
+            sizes = _with_zeros(rng, sizes)
+        starts, acc = [], lo
+        for n in sizes:
+            starts.append(acc)
+            acc += n
+        blocks = [[] for _ in sizes]
+        for e in events:
+            ok = [j for j, a in enumerate(starts) if a <= e]               # causal: the block starts at or before the event
+            if mode == 'early':
+                j = rng.choice(ok)
+            else:
+                d = rng.choice([0, m, m, rng.randint(0, m)])               # reported d samples late: the block that held sample e - d .. e
+                y = max(lo, e - d)
+                inside = [j for j in ok if starts[j] <= y < starts[j] + sizes[j]]
+                j = inside[0] if inside else ok[-1]
+                if mode == 'exact':
+                    ends = [j for j in ok if starts[j] + sizes[j] == e]    # event == end of the block
+                    if ends and rng.random() < 0.7:
+                        j = ends[-1]
+            blocks[j].append(e)
+        yield {'stage': 'event_rate', 'p': {'bsz': bsz, 'stp': stp}, 'lo': lo, 'fs': 1000.0, 'sizes': sizes,
+               'events': events, 'blocks': blocks}
+
+
+def _edges_rate_group(rng, k):
+    """a boolean stream meeting the C13 run-length precondition (every completed run longer than min_samples) ->
+    edges -> event_rate, under chunkings cut around its edges"""
+    m = rng.choice([1, 2, 3, 3, 4, rng.randint(1, 6)])
+    init = rng.choice([0, 0, 1])
+    bits, state = [], rng.choice([0, 1])
+    for _ in range(rng.randint(2, 9)):
+        bits += [state] * (m + rng.choice([1, 1, 2, rng.randint(1, 8)]))
+        state = 1 - state
+    bits += [state] * rng.randint(0, m + 3)                                # the last run may be short
+    N = len(bits)
+    detect = ['both', 'rising', 'falling', 'both'][k % 4]
+    form = 'pd' if k % 3 == 2 else 'plain'
+    first = rng.choice([0, 7, -5, -40]) if form == 'pd' else 0
+    bsz = rng.choice([1, 2, m, 2 * m + 1, 10, rng.randint(1, 20)])
+    stp = rng.choice([1, 2, m, 10, rng.randint(1, 20)])
+    base = {'stage': 'edges_rate', 'p': {'bsz': bsz, 'stp': stp}, 'm': m, 'init': init, 'detect': detect, 'bits': bits,
+            'form': form, 'first': first, 'fs': 1000.0}
+    edges_at = [i for i in range(N) if bits[i] != (bits[i - 1] if i else init)]
+    chunkings = [[1] * N, _rand_sizes(rng, N, 6)]
+    for d in (m, -m, rng.randint(0, m), rng.randint(-m, m + 1)):
+        chunkings.append(_cut_at([e + d for e in edges_at], 0, N))         # a boundary d samples after EVERY edge
+    e = rng.choice(edges_at) if edges_at else 0
+    for d in range(-m, m + 2):
+        chunkings.append(_cut_at([e + d], 0, N))                           # one boundary, every offset around one edge
+    chunkings.append(_cut_at([e + m, e + m + rng.randint(1, 12)], 0, N))
+    seen = set()
+    for sizes in chunkings:
+        if tuple(sizes) in seen or len(sizes) < 2:
+            continue
+        seen.add(tuple(sizes))
+        yield dict(base, sizes=sizes)
 
 
 _MATRICES = {1: [[[2]], [[-1]]],
@@ -1111,6 +1325,12 @@ def cases(tier, rng):
             c['p']['den'] = 2
             c['p']['stp'] = 2 * rng.randint(0, 12) + 1          # block_step = 0.5, 1.5, 2.5, ...
         yield c
+    # causal Events streams: events at or after the end of the block that carries them (as pipeline.edges emits them)
+    for _ in range(70 if quick else 1500):
+        yield from _er_ahead_group(rng)
+    # composition: boolean stream -> real edges -> real event_rate
+    for k in range(24 if quick else 600):
+        yield from _edges_rate_group(rng, k)
 
 
 def distribution(cases_, results):
